@@ -42,6 +42,9 @@ var pollClient = &http.Client{Timeout: 6 * time.Second, Transport: &http.Transpo
 
 func childDirected(b run.Batch, r *ev.Result) {
 	rng := rand.New(rand.NewSource(b.Seed))
+	if !lateFreshStart(b, r, rng) || abandoned.Load() {
+		return
+	}
 	if !abandonCells(b, r, rng) || abandoned.Load() {
 		return
 	}
